@@ -463,6 +463,50 @@ func nonEmptyList(v interface{}) interface{} {
 	return v
 }
 
+// operatorLikeNames renames some variables to names that are also built-in operators or
+// keywords (in operand position a registered variable or constant wins over the operator of
+// the same name, in prefix and in infix notation alike). Only for universes that register
+// every variable (undefined-variable mode refuses such names by design), and only with
+// names the tree does not use as operators.
+func operatorLikeNames(t *rapid.T, tree *m.Node, u *Universe) {
+	if u.allowUndefined() || len(u.Vars) == 0 || rapid.IntRange(0, 4).Draw(t, "oplike") != 0 {
+		return
+	}
+	used := map[string]bool{}
+	tree.Walk(func(x *m.Node) {
+		if x.Kind == m.KOp || x.Kind == m.KIf {
+			used[x.Name] = true
+		}
+	})
+	for _, c := range u.Consts {
+		used[c.Name] = true
+	}
+	for _, v := range u.Vars {
+		used[v.Name] = true
+	}
+	pool := []string{"mod", "in", "all", "date", "version", "add", "map", "any", "not", "overlap", "between", "eq", "filter", "xor", "t_date", "let"}
+	ren := map[string]string{}
+	for i := range u.Vars {
+		if rapid.Bool().Draw(t, "oplike_var") {
+			continue
+		}
+		cand := rapid.SampledFrom(pool).Draw(t, "oplike_name")
+		if used[cand] {
+			continue
+		}
+		used[cand] = true
+		ren[u.Vars[i].Name] = cand
+		u.Vars[i].Name = cand
+	}
+	tree.Walk(func(x *m.Node) {
+		if x.Kind == m.KVar {
+			if n, ok := ren[x.Name]; ok {
+				x.Name = n
+			}
+		}
+	})
+}
+
 func drawStateless(t *rapid.T) []string {
 	var out []string
 	for _, n := range []string{"c_cat", "c_fail", "c_id", "c_not", "c_sum"} { // never c_cnt: it is stateful
